@@ -67,6 +67,29 @@ def iterVals (l : List IterOut) : List Val := l.map fun
   | .bit o => .obit o
   | .num n => .nat n
 
+/-- `S<fill code point hex>.<n|l|r|c>.<plus>.<alt>.<zero>.<width or ->` -/
+def parseSpec (s : String) : Option Api.FmtSpec :=
+  match (s.drop 1).toString.splitOn "." with
+  | [f, a, p, h, z, w] => do
+    let f ← parseHex f
+    let al : Nat := if a = "l" then 1 else if a = "r" then 2 else if a = "c" then 3 else 0
+    let p ← parseBool p; let h ← parseBool h; let z ← parseBool z
+    let wd : Option Nat := if w = "-" then none else w.toNat?
+    pure { fill := Char.ofNat f, align := al, plus := p, alt := h, zero := z, width := wd }
+  | _ => none
+
+def specNumeral (k : Char) (v : Nat) : List Char :=
+  match k with
+  | 'b' => BV.numeral 2 false v
+  | 'o' => BV.numeral 8 false v
+  | 'x' => BV.numeral 16 false v
+  | 'X' => BV.numeral 16 true v
+  | _ => BV.numeral 10 false v
+
+/-- lower bound reported by the iterator's `size_hint` for the harness's hint kinds: exact, none, half, upper-only -/
+def hintOf (kind : String) (len : Nat) : Nat :=
+  if kind = "x" then len else if kind = "l" then len / 2 else 0
+
 def parseEnd (s : String) : Option Bool := if s = "big" then some true else if s = "little" then some false else none
 
 def bitop? (s : String) : Option BitOp :=
@@ -102,7 +125,7 @@ def runOp (op : String) (dbg : Bool) (a : List String) : Option (Out × Out) := 
   | "with_capacity", [t, c] =>
     let t ← parseTy t; let c ← c.toNat?
     let m : Out := match withCapacity t c with
-      | .ok v => .ok [.vec v, .nat v.capBits]
+      | .ok v => .ok [.vec v, .capv v.capBits]
       | .err e => .err e
       | .panic => .panic
     let capPred : Nat → Bool := match capOf t with
@@ -142,9 +165,9 @@ def runOp (op : String) (dbg : Bool) (a : List String) : Option (Out × Out) := 
     let v := (xs.zip (List.range xs.length)).foldl (fun acc p => acc + p.1 * 2 ^ (wJ * p.2)) 0
     let sp : Out := if overCap t (xs.length * wJ) then .err "NotEnoughCapacity" else .ok [.sv ⟨xs.length * wJ, v⟩]
     pure (resV (fromSlice t wJ xs), sp)
-  | "collect", [t, bits] =>
+  | "collect", [t, bits, hk] =>
     let t ← parseTy t; let bits ← parseBits bits
-    pure (resV (collect t bits), specGrow t (bvOfBits bits))
+    pure (resV (collect t bits (hintOf hk bits.length)), specGrow t (bvOfBits bits))
   | "convert", [t, src] =>
     let t ← parseTy t; let src ← parseVec src
     let sp : Out := if overCap t src.len then .err "NotEnoughCapacity" else .ok [.sv src.abs]
@@ -189,9 +212,9 @@ def runOp (op : String) (dbg : Bool) (a : List String) : Option (Out × Out) := 
     let v ← parseVec v; let i ← i.toNat?; let x ← parseVec x
     if i > v.len then (if dbg then pure (.panic, .panic) else none) else
     pure (resV (insert v i x.any), specGrow v.ty (v.abs.insert i x.abs))
-  | "extend", [v, bits] =>
+  | "extend", [v, bits, hk] =>
     let v ← parseVec v; let bits ← parseBits bits
-    pure (resV (extend v bits), specGrow v.ty (v.abs.extend bits))
+    pure (resV (extend v bits (hintOf hk bits.length)), specGrow v.ty (v.abs.extend bits))
   | "copy_range", [v, s, e] =>
     let v ← parseVec v; let s ← s.toNat?; let e ← e.toNat?
     if s > v.len ∨ e > v.len then (if dbg then pure (.panic, .panic) else none) else
@@ -236,7 +259,7 @@ def runOp (op : String) (dbg : Bool) (a : List String) : Option (Out × Out) := 
     let pred : Nat → Bool := match capOf v.ty with
       | some c => fun n => n == c
       | none => fun n => n ≥ v.len + k
-    pure (.ok [.vec r, .nat r.capBits], .ok [.sv v.abs, .natPred pred])
+    pure (.ok [.vec r, .capv r.capBits], .ok [.sv v.abs, .natPred pred])
   | "shrink", [v] =>
     let v ← parseVec v
     let r := shrinkToFit v
@@ -244,10 +267,10 @@ def runOp (op : String) (dbg : Bool) (a : List String) : Option (Out × Out) := 
       | .f w N => N * w
       | .d => ((v.len + 63) / 64) * 64
       | .a => if v.len ≤ 128 then 128 else ((v.len + 63) / 64) * 64
-    pure (.ok [.vec r, .nat r.capBits], .ok [.sv v.abs, .natPred (fun n => n ≤ fresh ∧ n ≥ v.len)])
+    pure (.ok [.vec r, .capv r.capBits], .ok [.sv v.abs, .natPred (fun n => n ≤ fresh ∧ n ≥ v.len)])
   | "capacity", [v] =>
     let v ← parseVec v
-    pure (.ok [.nat v.capBits], .ok [.natPred (fun n => n ≥ v.len)])
+    pure (.ok [.capv v.capBits], .ok [.natPred (fun n => n ≥ v.len)])
   | "len", [v] =>
     let v ← parseVec v
     pure (.ok [.nat v.len, .bool (v.len == 0)], .ok [.nat v.abs.len, .bool (v.abs.len == 0)])
@@ -283,6 +306,11 @@ def runOp (op : String) (dbg : Bool) (a : List String) : Option (Out × Out) := 
       | 'X' => BV.numeral 16 true v.abs.val
       | _ => BV.numeral 10 false v.abs.val
     pure (.ok [.chars (digits v k)], .ok [.chars sp])
+  | "fmtspec", [v, k, sp] =>   -- whole formatted string under a format spec; second output: agreement with `format!(spec, value as u128)`
+    let v ← parseVec v; let sp ← parseSpec sp
+    let k := k.front
+    pure (.ok [.chars (Api.format v k sp), .bool true],
+          .ok [.chars (Api.padIntegral sp (Api.fmtPrefix k) (specNumeral k v.abs.val)), .bool true])
   | "iter", [v, rev, calls] =>
     let v ← parseVec v; let rev ← parseBool rev; let calls ← parseCalls calls
     pure (.ok (iterVals (iterRun v rev calls)), .ok (iterVals (sliceRun rev v.abs.bits calls)))
